@@ -16,7 +16,9 @@ CLAIM = (
     "the translation clears it from the tree before rendering; (3) ANCHORS: the translation is parse -> anchor removal -> render on one "
     "tree, and the remover drops both ^ and $ and descends into what it keeps; (4) INTERSECT: several patterns are combined by "
     "intersection; (5) TYPE-MAP: the XSD type of each primitive type is the one whose lexical space the SDKs write; (6) errors are never "
-    "dropped and chains over type annotations are exhaustive (ERR1-3, RET-XOR, EXH1) in xsd/main.py."
+    "dropped and chains over type annotations are exhaustive (ERR1-3, RET-XOR, EXH1) in xsd/main.py; (7) the renderer that writes the "
+    "pattern agrees with the parser on every escape, escapes a leading caret of a set in all cases and emits the end of every range "
+    "(ESC-TAB, RANGE-END, shared with C16); list sizes reach minOccurs/maxOccurs from the matching bound (OCCURS, shared with C14)."
     " SKIPS: the loops of the functions in scope have no more `continue`, `break` or in-loop `return` statements than the reference "
     "read on the unchanged tree (baselines/skips.json): a new skip means elements that were handled are no longer handled."
 )
@@ -50,6 +52,15 @@ def run(ctx) -> None:
     check_anchors(ctx)
     check_intersect(ctx)
     check_type_map(ctx)
+    # the renderer is what writes the XSD pattern: its agreement with the parser (escapes, range ends, leading caret) and the
+    # list-size attributes are necessary for "accepts every string the meta-model pattern accepts" (shared with C16 / C14)
+    ctx.rule("ESC-TAB", "renderer escape tables agree with the parser's escape arms; a leading caret is always escaped (shared with C16)", floor=25)
+    ctx.rule("RANGE-END", "every branch of the renderer that emits the start of a range also emits its end (shared with C16)", floor=2)
+    ctx.rule("OCCURS", "minOccurs/maxOccurs of list items come from min_value/max_value (shared with C14)", floor=3)
+    from . import c14, c16
+    c16._check_escape_tables(ctx)
+    c16._check_range_end(ctx)
+    c14.check_occurs(ctx)
     mod = ctx.p.module(XM)
     for f in mod.functions.values():
         err.check_err12(ctx, f, "ERR1", "ERR1v", "ERR2")
